@@ -312,7 +312,7 @@ def work_images(job):
                 uf, af = rng.choice(['plain-url', 'plain-url', 'empty-url']), rng.choice(sorted(IMG_ATTR))
             url, attr = rng.choice(IMG_URLS[uf]), rng.choice(IMG_ATTR[af])
             title = rng.choice(['', ' "A title"'])
-            form = rng.choice(['inline', 'figure', 'reference', 'reference-figure', 'in-list', 'in-table', 'link-around'])
+            form = rng.choice(['inline', 'figure', 'reference', 'reference-figure', 'in-list', 'in-table', 'link-around', 'in-heading'])
             dest = url + title + ((' ' + attr) if attr else '')
             if form == 'inline':
                 text = 'Before ![alt w1](%s) after.\n' % dest
@@ -326,6 +326,8 @@ def work_images(job):
                 text = '* item ![alt w1](%s)\n* two\n' % dest
             elif form == 'in-table':
                 text = '| h | i |\n|---|---|\n| ![alt w1](%s) | z |\n' % dest
+            elif form == 'in-heading':
+                text = '# Head ![alt w1](%s)\n\ntext\n' % dest          # the heading is repeated in EPUB's navigation document, which does not collect assets
             else:
                 text = 'Before [![alt w1](%s)](http://e.x/) after.\n' % dest
             if form.startswith('reference') and url == '':
@@ -358,7 +360,7 @@ def work_images(job):
                     if e is not None:
                         off = getattr(e, 'byte_index', 0)
                         # the HTML writer copies image attributes into the tag as typed (recorded for link attributes, titles and alt text too): one key for that cause
-                        fkey = 'attribute-value-as-typed' if name == 'epub:main.xhtml' and af not in ('none', 'plain-dimension', 'gt-in-dimension') else feature
+                        fkey = 'attribute-value-as-typed' if name in ('epub:main.xhtml', 'epub:nav.xhtml') and af not in ('none', 'plain-dimension', 'gt-in-dimension') else feature
                         r.violate('not-wellformed:%s:image:%s' % (name, fkey), '%s is not well-formed XML: %s at line %d (image %s, destination %r)' % (name, expat.ErrorString(e.code), e.lineno, form, dest),
                                   dict(requests=[rq], member=name), 'around: %s\nsource: %s' % (core.show(data[max(0, off - 100):off + 40], 240), core.show(src, 300)))
             r.distinct.add(core.h64('img', src, ext))
